@@ -111,7 +111,7 @@ def r1_writers(chk: Check) -> None:
         # sanitized name, not from the raw source
         if fn.name == "har_writer":
             t = unparse(fn.node, 100000)
-            chk.decide("interaction.request.uri).query" not in t and "parse_qsl(query_params" in t, "C15.R1", fn, "HAR queryString derives from the sanitized uri", "query records are parsed from the raw request URI", fn.loc())
+            chk.expect("interaction.request.uri).query" not in t and "parse_qsl(query_params" in t, "C15.R1", fn, "HAR queryString derives from the sanitized uri", "query records are parsed from the raw request URI", fn.loc())
             cookies = [c for c in body_calls(fn) if last_attr(c) == "_extract_cookies"]
             raw = [c for c in cookies if any((dotted(a) or "").startswith("interaction.") for x in c.args for a in ast.walk(x))]
             chk.decide(not raw, "C15.R1", fn, "HAR cookies derive from the sanitized headers", "cookie records are extracted from the raw headers", fn.loc(raw[0]) if raw else fn.loc())
@@ -174,7 +174,7 @@ def r2_curl(chk: Check) -> None:
         chk.decide(w is None, "C15.R2", prq, "the request is built after the sanitize branch", "the request can be built before sanitization", prq.loc(req[0]))
     # format_failures consumers use the curl code sample / sanitized config
     ff = P.func("core/failures.py:format_failures")
-    chk.decide("curl" in params_of(ff.node), "C15.R2", ff, "format_failures prints the prepared code sample", "signature changed", ff.loc())
+    chk.expect("curl" in params_of(ff.node), "C15.R2", ff, "format_failures prints the prepared code sample", "signature changed", ff.loc())
 
 
 def r3_plumbing(chk: Check) -> None:
@@ -197,7 +197,7 @@ def r3_plumbing(chk: Check) -> None:
     chk.decide(bool(dflt) and isinstance(dflt[0].value, ast.Constant) and dflt[0].value.value is True, "C15.R3", "cli/commands/run/handlers/cassettes.py:CassetteWriter", "sanitize_output defaults to True", "default is off", f"{CAS}")
     ic = P.func("cli/commands/run/executor.py:into_event_stream")
     t = unparse(ic.node, 100000)
-    chk.decide("output=config.output" in t, "C15.R3", ic, "loader gets output=config.output", "the schema's output config (sanitize flag for curl commands) is not the CLI's", ic.loc())
+    chk.expect("output=config.output" in t, "C15.R3", ic, "loader gets output=config.output", "the schema's output config (sanitize flag for curl commands) is not the CLI's", ic.loc())
 
 
 def r4_sanitizer(chk: Check) -> None:
@@ -205,9 +205,9 @@ def r4_sanitizer(chk: Check) -> None:
     P = chk.project
     sv = P.func("core/output/sanitization.py:sanitize_value")
     t = unparse(sv.node, 100000)
-    chk.decide("lower_key = key.lower()" in t, "C15.R4", sv, "keys lower-cased before matching", "matching is case-sensitive: `Authorization` / `X-API-KEY` slip through", sv.loc())
-    chk.decide("lower_key in config.keys_to_sanitize" in t and "any((marker in lower_key for marker in config.sensitive_markers))" in t, "C15.R4", sv, "exact keys OR substring markers", "one of the two matching rules is gone", sv.loc())
-    chk.decide("item[key] = [config.replacement]" in t and "item[key] = config.replacement" in t, "C15.R4", sv, "list and scalar values replaced by the marker", "a value shape is left unredacted", sv.loc())
+    chk.expect("lower_key = key.lower()" in t, "C15.R4", sv, "keys lower-cased before matching", "matching is case-sensitive: `Authorization` / `X-API-KEY` slip through", sv.loc())
+    chk.expect("lower_key in config.keys_to_sanitize" in t and "any((marker in lower_key for marker in config.sensitive_markers))" in t, "C15.R4", sv, "exact keys OR substring markers", "one of the two matching rules is gone", sv.loc())
+    chk.expect("item[key] = [config.replacement]" in t and "item[key] = config.replacement" in t, "C15.R4", sv, "list and scalar values replaced by the marker", "a value shape is left unredacted", sv.loc())
     rec = [c for c in body_calls(sv) if last_attr(c) == "sanitize_value"]
     chk.decide(len(rec) >= 2 and all(kwarg(c, "config") is not None for c in rec), "C15.R4", sv, "recursion into nested mappings and sequences with the same config", "nested containers are not visited / lose the custom config", sv.loc())
     su = P.func("core/output/sanitization.py:sanitize_url")
@@ -227,8 +227,8 @@ def r4_sanitizer(chk: Check) -> None:
         chk.decide(True if ok else (False if narrowed else None), "C15.R4", su, "authority redacted when userinfo is present",
                    f"redaction is conditioned on `{tt}`: userinfo without a password (token-as-username) is written in clear", su.loc(netloc_assign[0]))
     del cond
-    chk.decide("sanitize_value(query, config=config)" in t and "parse_qs(parsed.query, keep_blank_values=True)" in t, "C15.R4", su, "query parameters sanitized by key", "query parameters are not sanitized", su.loc())
-    chk.decide("_replace(netloc=netloc, query=sanitized_query)" in t, "C15.R4", su, "sanitized parts are what is returned", "the URL is rebuilt from unsanitized parts", su.loc())
+    chk.expect("sanitize_value(query, config=config)" in t and "parse_qs(parsed.query, keep_blank_values=True)" in t, "C15.R4", su, "query parameters sanitized by key", "query parameters are not sanitized", su.loc())
+    chk.expect("_replace(netloc=netloc, query=sanitized_query)" in t, "C15.R4", su, "sanitized parts are what is returned", "the URL is rebuilt from unsanitized parts", su.loc())
     # defaults contain the credential-bearing header names the property lists
     mod = su.module
     keys = next((s.value for s in mod.tree.body if isinstance(s, ast.Assign) and unparse(s.targets[0]) == "DEFAULT_KEYS_TO_SANITIZE"), None)
